@@ -29,10 +29,10 @@ PROPERTIES = {
         assumptions=["text length <= isize::MAX (Rust allocation limit)"],
     ),
     'C03': dict(
-        units=['u_store'],
+        units=['u_store', 'u_reindex'],
         kani=[dict(harness='k_temp_id', function='resolve_temp_id (src/store.rs)', file='src/store.rs', bound='every valid UTF-8 string of at most 4 bytes')],
-        level_text="Deductive proof (Verus/Z3) of the generic store layer, once for every store type: StoreFor::resolve_id returns exactly the handle the id map holds for that string, or the number of a temporary id of the right kind that fits the handle type; get/has/get_mut succeed exactly for live items; remove tombstones the item, drops its id from the id map and preserves the id-map representation invariant (every id points at the live item carrying it and vice versa); insert (C14) either fails without changing the store or appends exactly one item. No lookup panics, whatever the string.",
-        level_note="Trusted: HashMap<String,H> modelled as a map (VxStrMap), str::starts_with, Option::map(to_string), resolve_temp_id's contract (bounded Kani stand-in), callback contracts of StoreCallbacks (proved for the dataset implementations in u_dataset, assumed for AnnotationStore), 64-bit usize. Compaction (reindex) is covered separately.",
+        level_text="Deductive proof (Verus/Z3) of the generic store layer, once for every store type: StoreFor::resolve_id returns exactly the handle the id map holds for that string, or the number of a temporary id of the right kind that fits the handle type; get/has/get_mut succeed exactly for live items; remove tombstones the item, drops its id from the id map and preserves the id-map representation invariant (every id points at the live item carrying it and vice versa); insert (C14) either fails without changing the store or appends exactly one item. No lookup panics, whatever the string. Compaction: Handle::reindex shifts a handle by the deltas of the gaps recorded at or before it; ReindexStore::gaps records, for every live position, minus the number of tombstones before it; ReindexStore::reindex moves every live item, in order, to exactly the position Handle::reindex computes from its old handle, where it knows its new handle and keeps id and content, and nothing else is live; a lemma over these contracts shows the id-map invariant is preserved when every stored handle is shifted the same way (IdMap::reindex), i.e. no identifier is redirected to another item by compaction.",
+        level_note="Trusted: HashMap<String,H> modelled as a map (VxStrMap), str::starts_with, Option::map(to_string), resolve_temp_id's contract (bounded Kani stand-in), callback contracts of StoreCallbacks (proved for the dataset implementations in u_dataset, assumed for AnnotationStore), 64-bit usize. Compaction: the values_mut loop of IdMap::reindex (one call of the verified Handle::reindex per value) and gaps.iter().map().sum() are outlined; AnnotationStore::reindex itself (which calls gaps / reindex / IdMap::reindex with the same gap list per store) is read, not verified; it does not remap annotation targets nor four of the reverse indices (recorded in DESIGN.md section 8 with a replay).",
         design_ref='DESIGN.md §7.3',
         explanation="representation invariant idmap_wf as pre/postcondition of every mutating operation of the generic StoreFor trait",
         assumptions=["accessor contracts (store/store_mut/idmap/idmap_mut are plain field accessors) and callback contracts hold for each implementing type"],
